@@ -108,7 +108,7 @@ def _c06_worker(args):
         if k < 2:
             out["samples"].append({"routes": routes, "lower_bound": lb, "max_allowed_time": tm})
     # 2. tiny classic instances: LB <= OPT (lb_sound) and min over all agent behaviours = OPT
-    for (nj, nm, maxd) in tiny:
+    for k2, (nj, nm, maxd) in enumerate(tiny):
         routes = gen.gen_routes(rng, nj, nm, maxd=maxd, repeats=False, zero_p=0.1)
         d = classic_dict(routes)
         inst, _ = jsl.compile_dict(d, cfg)
@@ -123,7 +123,9 @@ def _c06_worker(args):
         if lb > opt:
             out["violations"].append({"kind": "lb:exceeds_optimum", "detail": "lower bound %d > optimum %d" % (lb, opt),
                                       "replay": {"routes": routes}})
-        best, nodes, ends = explore_min_makespan(d, cfg)
+        # the optimum must be reachable with and without early transport
+        cfg_x = cfg if (k2 % 2 == 0) else jsl.with_cfg(jsl.load_config(), early=False, trunc_active=False)
+        best, nodes, ends = explore_min_makespan(d, cfg_x)
         out["tree_nodes"] += nodes
         if best != opt:
             out["violations"].append({"kind": "opt:unreachable" if (best is None or best > opt) else "opt:shortcut",
@@ -193,7 +195,8 @@ def explore_min_makespan(d, cfg, max_nodes=400000):
 def c06(ctx):
     rng = random.Random(ctx.seed + 6)
     if ctx.quick():
-        args = [(rng.randrange(1 << 30), 60, [(2, 2, 4), (2, 3, 3), (3, 2, 3), (2, 2, 9)], False) for _ in range(4)]
+        args = [(rng.randrange(1 << 30), 60, [(2, 2, 4), (3, 2, 3), (2, 3, 3), (3, 2, 2), (2, 2, 9), (3, 2, 3), (3, 2, 2)], False)
+                for _ in range(8)]
     else:
         args = [(rng.randrange(1 << 30), 400, [(2, 2, 9), (2, 3, 4), (3, 2, 4), (3, 3, 3), (2, 4, 3)], True) for _ in range(16)]
     outs = _pool_map(_c06_worker, args)
@@ -337,8 +340,9 @@ def _c19_worker(args):
                 continue     # stochastic durations: the two episodes are not episodes of one instance
             out["pairs"] += 1
             if (m1 < m2 and not f1 > f2) or (m2 < m1 and not f2 > f1) or (m1 == m2 and f1 != f2):
-                out["violations"].append({"kind": "reward:not_monotone", "detail": "makespans %s,%s main terms %s,%s"
-                                          % (m1, m2, f1, f2), "replay": {"dsl": d}})
+                out["violations"].append({"kind": "reward:not_monotone", "detail": "makespans %s,%s main terms %s,%s "
+                                          "(lower bound %s, max allowed time %s)" % (m1, m2, f1, f2, k1[0], k1[1]),
+                                          "replay": {"dsl": d}, "facts": {"lb_gt_tmax": k1[0] > k1[1]}})
     out["ends"] = dict(out["ends"])
     drv.close()
     return out
@@ -652,9 +656,15 @@ def run_episode_c14(d, cfg, pol, hook, out, prop):
                     out["violations"].append({"kind": "contract:bad_action_changed_episode", "detail": "rejected action "
                                               "%r changed the episode" % (a,), "replay": {"dsl": d}})
             except Exception as e:  # noqa
-                out["violations"].append({"kind": "contract:bad_action_error", "detail": "action %r raised %s instead of "
-                                          "ActionOutOfActionSpace" % (a, type(e).__name__), "replay": {"dsl": d},
-                                          "facts": {"exception": type(e).__name__}})
+                unchanged = (env.state, len(env.history), env.terminated, env.truncated, env.done) == before
+                if unchanged and len(env.state.possible_transitions) == 0:
+                    # a state without offers (a dead end, see the findings of C05/C11) rejects EVERY action with
+                    # InvalidValue before looking at it: rejected and unchanged, which is all the property asks
+                    out["bad_actions_in_dead_state"] = out.get("bad_actions_in_dead_state", 0) + 1
+                else:
+                    out["violations"].append({"kind": "contract:bad_action_error", "detail": "action %r raised %s instead of "
+                                              "ActionOutOfActionSpace (episode unchanged: %s)" % (a, type(e).__name__, unchanged),
+                                              "replay": {"dsl": d}, "facts": {"exception": type(e).__name__}})
             continue
         try:
             obs, rew, term, trunc, info = env.step(a)
@@ -806,7 +816,9 @@ FOREIGN = {"IndexError", "KeyError", "ValueError", "TypeError", "AttributeError"
 
 
 def malform(rng, d):
-    """One malformed variant of a well-formed document; returns (doc, kind)."""
+    """One malformed variant of a well-formed document; returns (doc, kind); doc is None when the chosen mutation
+    does not apply to this document (it would leave it unchanged)."""
+    orig = d
     d = copy.deepcopy(d)
     ic = d["instance_config"]
     spec = ic["instance"]["specification"]
@@ -863,6 +875,8 @@ def malform(rng, d):
         lines.insert(rng.randint(1, len(lines)), "hello world")
         ic["instance"]["specification"] = "\n".join(lines)
     else:
+        return None, kind
+    if d == orig:
         return None, kind
     return d, kind
 
